@@ -41,6 +41,31 @@ def option_vector(i):
 N_OV = 3 + 2 * len(OPTION_NAMES)
 
 
+def untraced(fn, *args):
+    """Runs fn on realised (concrete) arguments with CrossHair's tracer switched off: the structure parameters are
+    forked on (one path per value), everything after that is concrete, so interpreting it opcode by opcode only costs time."""
+    try:
+        from crosshair.tracers import NoTracing, is_tracing
+        from crosshair.core import realize
+    except ImportError:
+        return fn(*args)
+    if not is_tracing():
+        return fn(*args)
+    real = [realize(a) for a in args]
+    with NoTracing():
+        return fn(*real)
+
+
+def bits_index(*bits):
+    """Index from boolean structure parameters: a balanced decision tree (14 forks per path) instead of CrossHair's
+    value-by-value realisation of a wide int (which costs O(n) decisions per path)."""
+    idx = 0
+    for i, b in enumerate(bits):
+        if b:
+            idx += 1 << i
+    return idx
+
+
 def _strict_same(text_out, tree):
     try:
         back = ast.parse(text_out)
@@ -49,12 +74,17 @@ def _strict_same(text_out, tree):
     return ast.dump(back) == ast.dump(tree)
 
 
-def expr_roundtrip(p: int, c: int) -> bool:
+def expr_roundtrip(b0: bool, b1: bool, b2: bool, b3: bool, b4: bool, b5: bool, b6: bool, b7: bool, b8: bool, b9: bool, b10: bool, b11: bool, b12: bool, b13: bool) -> bool:
     """
-    pre: 0 <= p < N_SLOT
-    pre: 0 <= c < N_CHILD
     post: _
     """
+    idx = bits_index(b0, b1, b2, b3, b4, b5, b6, b7, b8, b9, b10, b11, b12, b13)
+    if idx >= N_SLOT * N_CHILD:
+        return True
+    return untraced(_expr_roundtrip_impl, idx // N_CHILD, idx % N_CHILD)
+
+
+def _expr_roundtrip_impl(p, c):
     # C02a: every expression slot x child kind, through the real unparse() (printer + its own self check)
     adm = G.expr_tree(p, c)
     if adm is None:
@@ -67,13 +97,18 @@ def expr_roundtrip(p: int, c: int) -> bool:
     return _strict_same(out, tree)
 
 
-def expr_roundtrip3(p: int, c: int, g: int) -> bool:
+def expr_roundtrip3(p: int, b0: bool, b1: bool, b2: bool, b3: bool, b4: bool, b5: bool, b6: bool, b7: bool, b8: bool, b9: bool, b10: bool, b11: bool, b12: bool, b13: bool) -> bool:
     """
     pre: 0 <= p < N_SLOT
-    pre: 0 <= c < N_CHILD
-    pre: 0 <= g < N_CHILD
     post: _
     """
+    idx = bits_index(b0, b1, b2, b3, b4, b5, b6, b7, b8, b9, b10, b11, b12, b13)
+    if idx >= N_CHILD * N_CHILD:
+        return True
+    return untraced(_expr_roundtrip3_impl, p, idx // N_CHILD, idx % N_CHILD)
+
+
+def _expr_roundtrip3_impl(p, c, g):
     adm = G.expr_tree(p, c, g)
     if adm is None:
         return True
@@ -85,13 +120,18 @@ def expr_roundtrip3(p: int, c: int, g: int) -> bool:
     return _strict_same(out, tree)
 
 
-def stmt_roundtrip(s: int, c: int, c2: int) -> bool:
+def stmt_roundtrip(c2: int, b0: bool, b1: bool, b2: bool, b3: bool, b4: bool, b5: bool, b6: bool, b7: bool, b8: bool, b9: bool, b10: bool, b11: bool, b12: bool, b13: bool) -> bool:
     """
-    pre: 0 <= s < N_STMT
-    pre: 0 <= c < N_CHILD
     pre: 0 <= c2 < N_CHILD
     post: _
     """
+    idx = bits_index(b0, b1, b2, b3, b4, b5, b6, b7, b8, b9, b10, b11, b12, b13)
+    if idx >= N_STMT * N_CHILD:
+        return True
+    return untraced(_stmt_roundtrip_impl, idx // N_CHILD, idx % N_CHILD, c2)
+
+
+def _stmt_roundtrip_impl(s, c, c2):
     # C02b: with every transform disabled minify() returns text whose tree is identical to the tree of the input
     adm = G.stmt_tree(s, c, c2)
     if adm is None:
@@ -110,6 +150,10 @@ def expr_twin(p: int, c: int) -> bool:
     pre: 0 <= c < N_CHILD
     post: _
     """
+    return untraced(_expr_twin_impl, p, c)
+
+
+def _expr_twin_impl(p, c):
     # reachability: some admitted tree needs parentheses in the output (must be refuted)
     adm = G.expr_tree(p, c)
     if adm is None:
@@ -118,13 +162,18 @@ def expr_twin(p: int, c: int) -> bool:
     return '(' not in python_minifier.unparse(ast.parse(text)).split('=', 1)[1]
 
 
-def minify_total(s: int, c: int, ov: int) -> bool:
+def minify_total(ov: int, b0: bool, b1: bool, b2: bool, b3: bool, b4: bool, b5: bool, b6: bool, b7: bool, b8: bool, b9: bool, b10: bool, b11: bool, b12: bool, b13: bool) -> bool:
     """
-    pre: 0 <= s < N_STMT
-    pre: 0 <= c < N_CHILD
     pre: 0 <= ov < N_OV
     post: _
     """
+    idx = bits_index(b0, b1, b2, b3, b4, b5, b6, b7, b8, b9, b10, b11, b12, b13)
+    if idx >= N_STMT * N_CHILD:
+        return True
+    return untraced(_minify_total_impl, idx // N_CHILD, idx % N_CHILD, ov)
+
+
+def _minify_total_impl(s, c, ov):
     # C08a: a compilable module is minified without error into a compilable module, under every option vector
     adm = G.stmt_tree(s, c, 1)
     if adm is None:
@@ -136,13 +185,18 @@ def minify_total(s: int, c: int, ov: int) -> bool:
     return G.compiles(out)
 
 
-def minify_total_expr(p: int, c: int, ov: int) -> bool:
+def minify_total_expr(ov: int, b0: bool, b1: bool, b2: bool, b3: bool, b4: bool, b5: bool, b6: bool, b7: bool, b8: bool, b9: bool, b10: bool, b11: bool, b12: bool, b13: bool) -> bool:
     """
-    pre: 0 <= p < N_SLOT
-    pre: 0 <= c < N_CHILD
     pre: 0 <= ov < N_OV
     post: _
     """
+    idx = bits_index(b0, b1, b2, b3, b4, b5, b6, b7, b8, b9, b10, b11, b12, b13)
+    if idx >= N_SLOT * N_CHILD:
+        return True
+    return untraced(_minify_total_expr_impl, idx // N_CHILD, idx % N_CHILD, ov)
+
+
+def _minify_total_expr_impl(p, c, ov):
     adm = G.expr_tree(p, c)
     if adm is None:
         return True
@@ -180,13 +234,17 @@ def rejects_with_syntax_error(o0: bool, o1: bool, o2: bool, o3: bool, o4: bool, 
     return False
 
 
-def integer_total(digits: int, first: int, prev: int) -> bool:
+DIGIT_COUNTS = [1, 2, 3, 5, 18, 19, 20, 21, 100, 4299, 4300, 4301, 6000]
+
+
+def integer_total(di: int, first: int, prev: int) -> bool:
     """
-    pre: 1 <= digits <= 6000
-    pre: 1 <= first <= 9
+    pre: 0 <= di < len(DIGIT_COUNTS)
+    pre: first == 1
     pre: 0 <= prev <= 9
     post: _
     """
+    digits = DIGIT_COUNTS[di]
     # C08b: TokenPrinter.integer never raises, for every magnitude; repr() is stubbed by its documented contract
     # (ValueError above sys.get_int_max_str_digits() digits), hex() by a length model
     import sys
@@ -225,7 +283,8 @@ def patched_many(module, **kw):
     return st
 
 
-def public_integer_total(digits, first, prev):
+def public_integer_total(di, first, prev):
+    digits = DIGIT_COUNTS[di]
     src = 'x=0x' + format(first * 10 ** (digits - 1), 'x')
     try:
         compile(src, 's', 'exec')
@@ -239,12 +298,21 @@ def public_integer_total(digits, first, prev):
     return {'violated': False, 'detail': 'ok'}
 
 
+def fstring_known_bits(*bits):
+    idx = bits_index(*bits)
+    if idx >= N_SLOT * N_CHILD:
+        return False
+    return fstring_known(idx // N_CHILD, idx % N_CHILD)
+
+
 def fstring_known(p, c):
     """Known finding F09: a str/bytes constant holding NUL, CR, a backslash or non-ASCII bytes nested in an f-string."""
     return G.CHILD[c] in ('b"\\x00\\xff"', '"\\x00"') and 'f"' in G.SLOT[p]
 
 
-def public_minify_total_expr(p, c, ov):
+def public_minify_total_expr(ov, **bits):
+    idx = bits_index(*[bits['b%d' % i] for i in range(14)])
+    p, c = idx // N_CHILD, idx % N_CHILD
     adm = G.expr_tree(p, c)
     if adm is None:
         return {'violated': False, 'detail': 'not admitted'}
